@@ -176,6 +176,10 @@ def benign_program(program):
             elif len(t) % 5 == 1:
                 t = 'delta %d\n...\nliteral 7\n' % len(t) + t
 
+            if len(t) % 7 == 3:
+                # a last line that ends in an ellipsis
+                t = t.rstrip('\r\n') + ' and later...\n'
+
             kw['content'] = t.encode('utf-8') or b'x\n'
 
         calls.append([op, kw])
